@@ -13,6 +13,7 @@ Driver for stream `witness` (C15). One op per line, one observation per line.
   rsi <item>                       -> ok <action> <cond> | err       (`ruleFromItem`: WitnessRule.FromStackItem)
       item := N | T | F | I int | S hex | U hex | A n item^n | R n item^n | M | X
               (null, true, false, Integer, ByteString, Buffer, Array, Struct, Map, Interop)
+  ssi <item>                       -> ok <signer> | err               (`signerFromItem`: Signer.FromStackItem)
   cjs <json>                       -> ok <cond> | err                 (`condFromJ`: UnmarshalConditionJSON)
   rjs <json>                       -> ok <action> <cond> | err       (`ruleFromJ`: WitnessRule.UnmarshalJSON)
       json := n | t | f | i int | s hex | a n json^n | o n (hex json)^n     (strings and keys as hex of their bytes)
@@ -434,6 +435,12 @@ def step (tbl : Array Env) (ws : List String) : Array Env × String :=
   | "rsi" :: rest =>
     match pItem rest with
     | some (it, []) => (tbl, showRuleRes (ruleFromItem decKeyNum it))
+    | _ => (tbl, "bad-op")
+  | "ssi" :: rest =>
+    match pItem rest with
+    | some (it, []) => (tbl, match signerFromItem decKeyNum it with
+        | some sg => "ok " ++ showSigner sg
+        | none => "err")
     | _ => (tbl, "bad-op")
   | "rjs" :: rest =>
     match pJson rest with
